@@ -1145,6 +1145,10 @@ class OFConnection (object):
         continue
 
       message_length = message[2] << 8 | message[3]
+      if message_length < 8:
+        self.log.error("Bad OpenFlow message length %s", message_length)
+        self.close()
+        break
       if message_length > len(message):
         break
 
